@@ -71,10 +71,12 @@ var Properties = map[string]PropDef{
 			"strings.NewReader / bufio.Reader are modelled by the documented ReadRune / UnreadRune contract over a sequence of runes; UTF-8 decoding itself is not modelled (the input domain is rune sequences)",
 			"bytes.Buffer modelled as a rope; positions (TokenPos) are computed by the real code",
 		},
-		Outside: "inputs longer than the bound; the LALR driver and semantic actions (gritsParse); memory consumption",
+		Outside: "inputs longer than the bound (so: only texts too short to contain a complete declaration reach the LALR driver; its error paths and the one-slot error channel are covered, its accepting paths are not); memory consumption",
 		Harnesses: []HarnessDef{
 			{Name: "parser.ZZC11Lex", Quick: map[string]int{"N": 3}, Thorough: map[string]int{"N": 4}, Depth: 60, Loop: 60, MaxPaths: 3000000},
 			{Name: "parser.ZZC11Lex", Quick: map[string]int{"N": 5, "ALPHA": 1}, Thorough: map[string]int{"N": 6, "ALPHA": 1}, Depth: 60, Loop: 60, MaxPaths: 3000000},
+			{Name: "parser.ZZC11Parse", Quick: map[string]int{"N": 3}, Thorough: map[string]int{"N": 4}, Depth: 100, Loop: 100, MaxPaths: 3000000},
+			{Name: "parser.ZZC11Parse", Quick: map[string]int{"N": 4, "ALPHA": 1}, Thorough: map[string]int{"N": 6, "ALPHA": 1}, Depth: 100, Loop: 100, MaxPaths: 3000000},
 		},
 	},
 	"C12": {
